@@ -17,6 +17,9 @@ pub struct MarkdownEventsReader {
     content: String,
     metadata_block: bool,
     html_block: bool,
+    // an html block has just ended: text that follows it in a tight list item is a paragraph of
+    // its own, not the continuation of the text before the (dropped) block
+    after_html_block: bool,
     metadata: Option<String>,
 }
 
@@ -31,6 +34,7 @@ impl MarkdownEventsReader {
             content: String::new(),
             metadata_block: false,
             html_block: false,
+            after_html_block: false,
             metadata: None,
         }
     }
@@ -193,6 +197,10 @@ impl MarkdownEventsReader {
         let pos = self.inlines_pos_stack.pop().unwrap();
 
         if self.inlines_stack.len() == 0 {
+            if self.after_html_block {
+                self.after_html_block = false;
+                self.top_block().start_item_paragraph(pos.clone());
+            }
             self.top_block().append_inline(inline, pos);
             return;
         }
@@ -214,6 +222,7 @@ impl MarkdownEventsReader {
     }
 
     fn start_tag(&mut self, tag: Tag, range: Range<usize>) {
+        self.after_html_block = false;
         match tag {
             Tag::Paragraph => {
                 self.push_block(DocumentBlock::Para(Para {
@@ -379,7 +388,10 @@ impl MarkdownEventsReader {
             TagEnd::CodeBlock => {
                 self.pop_block();
             }
-            TagEnd::HtmlBlock => self.html_block = false,
+            TagEnd::HtmlBlock => {
+                self.html_block = false;
+                self.after_html_block = true;
+            }
             TagEnd::List(_) => {
                 self.pop_block();
             }
